@@ -137,6 +137,7 @@ func (v *rtView) varOf(addr ssa.Value) (name string, whole bool) {
 
 // isLoadOfVar: v is `*<captured var name>` (a load of the whole variable).
 func (v *rtView) isLoadOfVar(x ssa.Value, name string) bool {
+	x = resolveLocal(x)
 	u, ok := x.(*ssa.UnOp)
 	if !ok || u.Op != token.MUL {
 		return false
@@ -147,6 +148,7 @@ func (v *rtView) isLoadOfVar(x ssa.Value, name string) bool {
 
 // isLoadOfVarField: x is a load of <var>.<field>.
 func (v *rtView) isLoadOfVarField(x ssa.Value, name, field string) bool {
+	x = resolveLocal(x)
 	u, ok := x.(*ssa.UnOp)
 	if !ok || u.Op != token.MUL {
 		return false
